@@ -193,6 +193,9 @@ impl Validator<'_> {
             })
             .transpose()?;
 
+        // The level inherited by alternatives that carry no precedence attribute of their own.
+        let mut inherited_lvl: Option<u32> = None;
+
         // Check that attributes are well-formed
         alternatives.iter().try_for_each(|alt| {
             let attr_prec_opt = alt.attributes.iter().find(|attr| attr.id == *precedence::PREC_ATTR);
@@ -202,6 +205,7 @@ impl Validator<'_> {
                 match attr_prec.get_arg_equal() {
                     Some((name, value)) if name == &Atom::from(precedence::LVL_ARG) => {
                         if let Ok(lvl) = value.parse::<u32>() {
+                            inherited_lvl = Some(lvl);
                             if lvl < min_lvl {
                                 min_lvl = lvl;
                                 min_prec_ann = attr_assoc_opt;
@@ -217,6 +221,16 @@ impl Validator<'_> {
                     Some((name, _)) => return_err!(attr_prec.id_span, "invalid argument `{}` for precedence attribute, expected `{}`", name, precedence::LVL_ARG),
                     None => return_err!(attr_prec.id_span, "missing argument for precedence attribute, expected `{}`", precedence::LVL_ARG),
                 }
+            }
+
+            // An associativity attribute on an alternative that inherits the minimum level
+            // is an associativity on the first level as well.
+            if attr_prec_opt.is_none()
+                && attr_assoc_opt.is_some()
+                && inherited_lvl == Some(min_lvl)
+                && min_prec_ann.is_none()
+            {
+                min_prec_ann = attr_assoc_opt;
             }
 
             if let Some(attr_assoc) = attr_assoc_opt {
